@@ -346,7 +346,23 @@ func oracleWorld(stream, in, out string) {
 					if w.ps == nil {
 						w.build()
 					}
+					// what delta clients of two namespaces hold before the update
+					before := map[string][]string{}
+					conn := map[string]*model.Proxy{}
+					if stream == "scope" {
+						for _, ns := range nsPool[:2] {
+							conn[ns] = w.proxyFor(ns, nil)
+							before[ns] = w.allClusterNames(conn[ns])
+						}
+					}
 					w.update(t)
+					for _, ns := range nsPool[:2] {
+						if b, ok := before[ns]; ok {
+							if v := w.oracleDeltaCDS(conn[ns], ns, b); v != "" {
+								return v
+							}
+						}
+					}
 					if v := w.oracleVis(nss); v != "" {
 						return visPrefix(stream) + v
 					}
